@@ -42,6 +42,16 @@ def run(plan):
 
     async def main(w):
         lan = w.ns.LAN(HOST, 6444, cfg["device_id"])
+        if plan.get("warm"):
+            # an authentic copy of the very same packet is accepted first (history: accept, then altered copy)
+            try:
+                got0 = await lan.send(b"\xaa\x00", retries=1)
+            except Exception as e:
+                res.fail(f"clean exchange raised {type(e).__name__}", repr(e))
+                return
+            if got0 != [reply]:
+                res.fail("clean exchange returned wrong frames", repr(got0))
+                return
         dev.script = [{"mutate": plan["mutate"]}]
         PE = w.ns.lan.ProtocolError
         try:
@@ -55,7 +65,7 @@ def run(plan):
         conn = w.net.conns[0]
         import refmodel.codec as codec
         orig = codec.v2_encode(dev.device_id, reply, magic=dev.resp_magic)
-        delivered = bytes(conn.tx_stream)
+        delivered = bytes(conn.tx_stream)[len(orig) if plan.get("warm") else 0:]
         delivered_changed[0] = delivered != orig
         if kind == "other":
             res.fail(f"corrupted packet raised {type(got).__name__} instead of ProtocolError", repr(got))
@@ -88,7 +98,7 @@ def run(plan):
         res.fail(f"liveness: {type(e).__name__}", str(e))
     res.take(w)
     res.add_fired(dev.fired)
-    res.key = (plan["reply"], repr(plan["mutate"]))
+    res.key = (plan["reply"], repr(plan["mutate"]), bool(plan.get("warm")))
     res.nontrivial = delivered_changed[0]
     return res
 
@@ -105,6 +115,10 @@ def space(tier):
         L, b = flip_index[j]
         return {"config": base, "reply": frame_for(L).hex(), "mutate": {"kind": "flip", "bit": b}}
     sp.add("flip_all", len(flip_index), flips, exhaustive=True)
+
+    def flips_warm(j, rng):
+        return dict(flips(j, rng), warm=True)
+    sp.add("flip_all_after_authentic_copy", len(flip_index), flips_warm, exhaustive=True)
     trunc_index = []
     for L in LENS:
         trunc_index.extend((L, n) for n in range(1, plen(L)))
@@ -145,6 +159,7 @@ def space(tier):
             m = {"kind": "trunc", "len": rng.randrange(1, n)}
         else:
             m = {"kind": "multi", "edits": [[rng.randrange(n), rng.randrange(1, 256)]]}
-        return {"config": dict(base, device_id=rng.getrandbits(64)), "reply": rand_bytes(rng, L).hex(), "mutate": m}
+        return {"config": dict(base, device_id=rng.getrandbits(64)), "reply": rand_bytes(rng, L).hex(), "mutate": m,
+                "warm": rng.random() < 0.5}
     sp.add("random_packets", 3000 if tier == "quick" else 400_000, rnd)
     return sp
